@@ -226,6 +226,16 @@ package ro
 //@   scope end interval start v
 //@   ensures [kth-tick-is-the-kth-element|C04] result == ite(start < end, start + v, start - v)
 
+//@ func RangeWithStepAndInterval
+//@   note the timed float range: as many ticks as the half-open range [start, end) has elements - the quotient rounded UP (0, 3, 6 and 9 are below 10); floating point itself is not reasoned about, the rounding function is named
+//@   props C04 C16
+//@   binds start end interval
+//@   scope end interval sign start step v
+//@   maypanic
+//@   track call.ANY callfn.ANY
+//@   ensures [an-empty-range-is-empty|C04] !panics && start == end ==> trace(call.Empty())
+//@   ensures [ticks-mapped-onto-the-range-and-cut-at-its-length-rounded-up|C04,C16] !panics && start != end ==> called(call.Ceil) && !called(call.Floor) && called(call.Interval) && arg(call.Interval, 0) == interval && called(call.Map) && called(call.Take) && called(call.Pipe2) && arg(call.Pipe2, 0) == res(call.Interval) && arg(call.Pipe2, 1) == res(call.Map) && arg(call.Pipe2, 2) == res(call.Take)
+
 //@ func RepeatWithInterval
 //@   props C04 C16
 //@   binds item count interval
